@@ -1,7 +1,7 @@
 CONSTANTS
-  SheetIdx = {0, 134, 37, 241, 252, 12, 146, 364}
+  SheetIdx = {0, 153, 42, 275, 288, 13, 166, 416, 31, 188}
   NSeed = 1
-  ScanMod = 4
+  ScanMod = 96
 INIT Init
 NEXT Next
-INVARIANTS PlantedThm SymmetryThm ScanThm SafetyThm ModeThm Export
+INVARIANTS PlantedThm InterleavedThm SymmetryThm ScanThm ShortcutThm SafetyThm ModeThm Export
